@@ -295,12 +295,17 @@ def run(ctx):
     rreqs = []   # (driver, history index, full)
     # closing and re-opening a Badger directory takes seconds: a seeded sample of the histories whose store is
     # not empty at the restart; the other drivers reopen in milliseconds
+    # histories that never create a graph store nothing: a seeded 5% of them is replayed
+    trivial = {i for i, h in enumerate(hs) if not any(storecmp.nstate(e["after"]) for e in h)}
+    trivial -= set(ctx.rng.sample(sorted(trivial), len(trivial) // 20))
     nonempty = [i for i, h in enumerate(hs) if any(e["call"]["op"] == "Restart" and storecmp.nstate(e["after"]) for e in h)]
     nfull = 32 if ctx.tier == "quick" else 400
     full_badger = set(ctx.rng.sample(nonempty, min(nfull, len(nonempty))))
     nonempty = set(nonempty)
     for d in drivers(ctx):
         for i, h in enumerate(hs):
+            if i in trivial:
+                continue
             if d == "badger":
                 rreqs.append((d, i, False))
                 if i in full_badger:
@@ -313,6 +318,8 @@ def run(ctx):
         lines = [dict(i=n, kind="restart", full=r[2], hist=[dict(call=x["call"]) for x in hs[r[1]]]) for n, r in mine]
         if lines:
             routs.update(run_harness(ctx, "restart_" + d, (d, lines)))
+
+    ctx.log("replayed %d histories with restarts (%d left out: they never create a graph)" % (len(rreqs), len(trivial)))
 
     # ---------------------------------------------------------------- replay: crash points
     creqs = []
@@ -327,6 +334,8 @@ def run(ctx):
     lines = [dict(i=n, kind="crash", hist=[dict(call=x) for x in states[r["si"]]["calls"]], call=states[r["si"]]["cases"][r["ci"]]["call"],
                   cont=r["cont"]) for n, r in enumerate(creqs)]
     couts = run_harness(ctx, "crash", ("badger", lines))
+
+    ctx.log("explored the crash points of %d (history, call) cases" % len(creqs))
 
     # ---------------------------------------------------------------- judgement by the specification
     jl = []            # lines for TLC
@@ -551,8 +560,8 @@ def run(ctx):
     for r in creqs[:: max(1, len(creqs) // 3)][:3]:
         st = states[r["si"]]
         ctx.sample(dict(history=st["calls"], interrupted=st["cases"][r["ci"]]["call"], writes=st["cases"][r["ci"]]["kinds"]))
-    ctx.cov.update(evaluations=nsteps + points, distinct_nontrivial=len(hs) + points, traces_validated_against_impl=len(rreqs) + points,
-                   restart_histories=len(hs), restart_replays=len(rreqs), restart_steps_compared=nsteps,
+    ctx.cov.update(evaluations=nsteps + points, distinct_nontrivial=len(hs) - len(trivial) + points, traces_validated_against_impl=len(rreqs) + points,
+                   restart_histories=len(hs) - len(trivial), restart_histories_without_any_graph_left_out=len(trivial), restart_replays=len(rreqs), restart_steps_compared=nsteps,
                    crash_cases=len(creqs), crash_points=points, crash_points_judged_by_tlc=len(judged), recovery_calls_judged=len(conts),
                    model_prediction_agreement=dict(pred),   # model-only: keys the model calls unsound but no observation shows divergences_also_without_restart=not_reopen,
                    histories_diverging_before_the_restart=pre_restart, crash_cases_on_unsound_start_state=prefix_bad,
